@@ -573,13 +573,60 @@ def class_values(name, env: Env, rng, n, depth):
         cols[fn] = vs
     outs = []
     for i in range(min(n, 2)):
-        fields = {fn: vs[min(i, len(vs) - 1) if i == 0 else -1] for fn, vs in cols.items()}
+        # (members of one class at different nesting levels get different values where the pool allows: a routine that
+        # mixes up the levels of a recursive value must show)
+        fields = {fn: (vs[depth % len(vs)] if i == 0 and len(vs) > 1 and depth else vs[min(i, len(vs) - 1) if i == 0 else -1])
+                  for fn, vs in cols.items()}
         outs.append(_construct(C, d, fields))
+    if depth == 0 and len(outs) > 1:
+        # a directly recursive class: the second value is a chain four levels deep with a different payload at every level
+        chain = _deep_chain(name, env, rng)
+        if chain is not None:
+            outs[1] = chain
     optional = [f[0] for f in d["fields"] if f[2]]
     if d["flavour"].startswith("typeddict") and d["flavour"] != "typeddict" and optional and n > 2:
         # a TypedDict value that leaves its optional keys out
         outs.append({k: v for k, v in outs[0].items() if k not in optional})
     return outs
+
+
+def _deep_chain(name, env, rng, levels=4):
+    d = env.defs[name]
+    if d["flavour"].startswith("typeddict"):
+        return None
+
+    def peel(T):
+        while T["k"] in ("newtype", "alias", "salias", "final", "annotated"):
+            T = T["a"]
+        return T
+    rec = None
+    for fn, T, *_ in d["fields"]:
+        t = peel(T)
+        if t["k"] == "union" and any(peel(m) == {"k": "cls", "c": name} for m in t["xs"]):
+            rec = (fn, "opt")
+        elif t["k"] == "coll" and t["c"] == "list" and peel(t["a"]) == {"k": "cls", "c": name}:
+            rec = (fn, "list")
+    if rec is None:
+        return None
+    C = env.obj(name)
+    node = None
+    for lvl in range(levels, 0, -1):
+        fields = {}
+        for fn, T, *_ in d["fields"]:
+            if T["k"] in ("classvar", "noinit"):
+                continue
+            if fn == rec[0]:
+                fields[fn] = (node if rec[1] == "opt" else ([node] if node is not None else []))
+            else:
+                vs = values(T, env, rng, 4, 3)
+                if not vs:
+                    return None
+                fields[fn] = vs[lvl % len(vs)]
+        try:
+            node = _construct(C, d, fields)
+        except Exception:
+            return None
+    return node
 
 
 def _construct(C, d, fields):
